@@ -6,7 +6,7 @@
 //      thread-local storage commute with operations of other threads on distinct objects; that reduction from
 //      "all interleavings" to "each operation in isolation" is a paper argument and is listed as an assumption.
 //  (2) ThreadLocal: API-level schedules over 3 simulated threads (thread_local globals swapped per thread).
-//@tu guard=1 unwind=12 memunwind=60 loop:ReadEntries=3 nodiff_rx=tls
+//@tu guard=1 unwind=12 memunwind=90 loop:ReadEntries=3
 #include "C14.cpp"
 #include "ser.h"
 #include <nop/types/thread_local.h>
